@@ -136,8 +136,34 @@ func ruleVarintShape(c *Check, a *Analysis, rule string) {
 				return
 			}
 			n++
-			for _, e := range phi.Edges {
+			for i, e := range phi.Edges {
 				bad := readerArmDefect(p, fn, e)
+				if k, isK := constInt(e); bad == "" && isK && k == 1 {
+					// the one-byte advance is for the zero length byte only
+					pred := phi.Block().Preds[i]
+					g, n := p.guardedBy(pred.Instrs[len(pred.Instrs)-1], func(cond ssa.Value) (bool, bool) {
+						b, ok := cond.(*ssa.BinOp)
+						if !ok || !isDataByte(b.X) {
+							return false, false
+						}
+						kk, isKK := constInt(b.Y)
+						if !isKK {
+							return false, false
+						}
+						switch {
+						case b.Op == token.GTR && kk == 0, b.Op == token.NEQ && kk == 0, b.Op == token.GEQ && kk == 1:
+							return true, false
+						case b.Op == token.EQL && kk == 0, b.Op == token.LSS && kk == 1, b.Op == token.LEQ && kk == 0:
+							return true, true
+						case b.Op == token.GEQ && kk == 0:
+							return true, false // always true: the arm is dead
+						}
+						return false, false
+					})
+					if n > 0 && !g {
+						bad = "the reader advances by one byte on an edge on which the length byte may be non-zero (the field's bytes are then parsed as the next field)"
+					}
+				}
 				c.Ob(rule, sc.key(fn, "bytes consumed = bytes the writer wrote"), p.InstrPos(phi), bad == "", ifs(bad != "", "a field reader of the code header advances the offset wrongly: "+bad))
 			}
 		})
